@@ -130,6 +130,16 @@ func runC06(c *Ctx, prop string) {
 				}
 			}
 			walk(data)
+			// the result is written back on every path that applied the areas: nothing between the
+			// area loop and the write may skip it (a "nothing changed" shortcut decided on anything
+			// but the bytes themselves drops same-length merges)
+			for _, l := range naturalLoops(write) {
+				for _, ee := range l.exitEdges() {
+					if !blockAlwaysReaches(ee[1], w.Block()) {
+						bad = append(bad, "after the areas were applied the function can return without writing the file back")
+					}
+				}
+			}
 		}
 		c.Sites++
 		c.Check(len(bad) == 0, prop+"-ONLY", fnName(write), "identity", write.Pos(), "bytes written = bytes read, modified only by the splice in the area loop; same path", strings.Join(uniqStrings(bad), "; "))
